@@ -10,6 +10,10 @@ for d in $OUT/*/; do
   n=$(basename "$d"); t=seeded/$P-$n
   [ -d "$t" ] && { echo "exists $t"; continue; }
   mkdir -p "$t"; cp "$d/patch.diff" "$d/demo_test.go" "$d/meta.json" "$t/"
+  python3 - "$t/meta.json" "$P" <<'PY'
+import json,sys
+m=json.load(open(sys.argv[1])); m['property']=sys.argv[2]; json.dump(m,open(sys.argv[1],'w'),indent=1)
+PY
   echo "== $t"
   python3 driver/seedtest.py confirm "$t" 2>&1 | tail -3
   python3 driver/seedtest.py detect "$t" 2>&1 | tail -4
